@@ -524,10 +524,11 @@ def cli_observe(ovl, jsonnet_src, logdir, tag):
             "stdout": p.stdout.decode("utf-8", "replace")[:2000], "stderr": p.stderr.decode("utf-8", "replace")[:2000]}
 
 
-def failed_property_ids(h, tdir, r):
+def failed_property_ids(h, ovl, r):
     """CBMC property ids (mangled) of the failed checks of result r, from `cbmc --show-properties` on the GOTO binary."""
     import glob
-    cands = [f for f in glob.glob(os.path.join(tdir, "**", "out", "*%s.out" % h.id), recursive=True) if not f.endswith(".symtab.out")]
+    # every worker has its own target directory (ktarget, ktarget-1, ...) inside the overlay
+    cands = [f for f in glob.glob(os.path.join(ovl, "ktarget*", "**", "out", "*%s.out" % h.id), recursive=True) if not f.endswith(".symtab.out")]
     if not cands:
         return []
     gb = max(cands, key=os.path.getmtime)
@@ -561,7 +562,7 @@ def do_replay_for_failure(h, prop, ovl, tdir, logdir, r):
         # The playback run checks ALL properties of the harness with traces kept and can need several times the memory of
         # the deciding run (c05_escape_json_w1: > 56 GB). Second attempt: the same run restricted to the failed properties
         # (`cbmc --property <id>`), whose ids are looked up in the harness's GOTO binary.
-        ids = failed_property_ids(h, tdir, r)
+        ids = failed_property_ids(h, ovl, r)
         if ids:
             # Kani drops `--slice-formula` for concrete playback (a sliced formula may leave inputs the failure does not
             # depend on out of the trace); without it this harness's formula needs > 56 GB. It is put back for the
